@@ -1565,7 +1565,11 @@ func (rl *Shell) editAndExecuteCommand() {
 	if err != nil || (len(edited) == 0 && len(buffer) != 0) {
 		rl.History.SkipSave()
 
-		errStr := strings.ReplaceAll(err.Error(), "\n", "")
+		errStr := "empty buffer"
+		if err != nil {
+			errStr = strings.ReplaceAll(err.Error(), "\n", "")
+		}
+
 		changeHint := fmt.Sprintf(color.FgRed+"Editor error: %s", errStr)
 		rl.Hint.SetTemporary(changeHint)
 
@@ -1587,7 +1591,11 @@ func (rl *Shell) editCommandLine() {
 	if err != nil || (len(edited) == 0 && len(buffer) != 0) {
 		rl.History.SkipSave()
 
-		errStr := strings.ReplaceAll(err.Error(), "\n", "")
+		errStr := "empty buffer"
+		if err != nil {
+			errStr = strings.ReplaceAll(err.Error(), "\n", "")
+		}
+
 		changeHint := fmt.Sprintf(color.FgRed+"Editor error: %s", errStr)
 		rl.Hint.SetTemporary(changeHint)
 
